@@ -78,8 +78,14 @@ def check(repo, rep):
     rep.ob('to_file guesses the format from (filename, audio_format)', bool(guess) and all(g[2] == (('p', 'filename'), ('p', 'audio_format')) for g in guess), cx.where('io', tfn), 'to_file:guess-args')
     kinds = {}
     for l in tl:
-        raw = any(c[0][0] == 'cmp' and c[0][1] == 'in' and any(x == ('c', 'raw') for x in walk(c[0][3])) and c[1] for c in l.conds)
-        wav = any(c[0][0] == 'cmp' and c[0][1] == 'in' and any(x == ('c', 'wav') for x in walk(c[0][3])) and c[1] for c in l.conds) or any(c[0][0] == 'cmp' and c[0][1] == '==' and c[0][3] == ('c', 'wav') and c[1] for c in l.conds)
+        def fmt_is(name):
+            for c in l.conds:
+                g = norm_cmp(c[0], c[1])
+                if g and ((g[0] == 'in' and any(x == ('c', name) for x in walk(g[2]))) or (g[0] == '==' and g[2] == ('c', name))):
+                    return True
+            return False
+        raw = fmt_is('raw')
+        wav = fmt_is('wav')
         calls = [e[1] for e in l.effects if e[0] == 'call' and e[1][0] == 'call' and e[1][1][0] == 'g' and e[1][1][2].startswith('_save')]
         if raw:
             ok = len(calls) == 1 and calls[0][1][2] == '_save_raw' and calls[0][2][:2] == (('p', 'data'), ('p', 'filename'))
